@@ -20,6 +20,7 @@ import (
 	"verif/ref/rcrypto"
 	"verif/ref/simkdc"
 
+	"github.com/jcmturner/gokrb5/v8/client"
 	"github.com/jcmturner/gokrb5/v8/credentials"
 	"github.com/jcmturner/gokrb5/v8/keytab"
 	"github.com/jcmturner/gokrb5/v8/messages"
@@ -113,7 +114,10 @@ func sequences(c *engine.Ctx) {
 	ktRenew.ETypes = []int32{17, 23}
 	assumed := pw
 	assumed.PreAuth = "assumed"
-	cfgs := []cworld.Opts{pw, base, pwRC4, ktRenew, assumed}
+	// des3 password principal whose KDC (wrongly but harmlessly) advertises s2kparams for it: the refusal is an error path of its own
+	pwDES3 := pw
+	pwDES3.ETypes, pwDES3.AdvertiseParams = []int32{16}, []byte{0, 0, 0, 9}
+	cfgs := []cworld.Opts{pw, base, pwRC4, ktRenew, assumed, pwDES3}
 	var seqs [][]string
 	var gen func(prefix []string)
 	gen = func(prefix []string) {
@@ -132,6 +136,9 @@ func sequences(c *engine.Ctx) {
 	var n, nsurf, steps int64
 	for ci, o := range cfgs {
 		for si, seq := range seqs {
+			if ci == len(cfgs)-1 && len(seq) > 1 {
+				continue // the des3 configuration runs the single operations only
+			}
 			if c.Expired() {
 				c.Capped("sequence enumeration stopped by budget")
 				return
@@ -353,6 +360,58 @@ func ccacheFile(version int, hdr []ccachefmt.HeaderField, k1, k2 []byte) []byte 
 	return ccachefmt.Write(f)
 }
 
+// basicAuthenticator: HTTP Basic credentials handed to service.KRB5BasicAuthenticator, which logs the user in with the
+// password. Passwords containing colons, '@' and back-slashes (the characters the header syntax uses) stay passwords: no
+// part of them reaches the wire in clear, the returned error, or the identity.
+func basicAuthenticator(c *engine.Ctx) {
+	var n int64
+	for pi, pw := range []string{"Qv8tR3:mZ5#kL9wX2pB7n", "hT4:wq9ZxL2m:Rk7Pd3Vs", "Mx3@Kd8qW2zL5pRt9vB6", "Jn5\\\\Wq2xT8mK4zLp7Rd", "Zq7#kV9x%mW2$pL5-plain"} {
+		for _, userForm := range []string{"%s@%s", "%s"} {
+			o := cworld.DefaultOpts()
+			o.Cred, o.PreAuth, o.PasswordOverride = "password", "required", pw
+			x := newWorldFor(o, 0)
+			x.secrets = append(x.secrets, newPasswordSecret("client password", pw))
+			user := fmt.Sprintf(userForm, cworld.User, cworld.Realm)
+			if userForm == "%s" {
+				user = cworld.User
+			}
+			hdr := base64.StdEncoding.EncodeToString([]byte(user + ":" + pw))
+			kt := keytab.New()
+			svc := x.w.KDC.Principals["HTTP/host.test.gokrb5@"+cworld.Realm]
+			if svc != nil {
+				for _, k := range svc.Keys {
+					kt.AddEntry("HTTP/host.test.gokrb5", cworld.Realm, "unused", time.Unix(1000, 0), uint8(k.KVNO), k.Etype)
+					kt.Entries[len(kt.Entries)-1].Key.KeyValue = k.Value
+				}
+			}
+			a := service.NewKRB5BasicAuthenticator(hdr, x.w.Config, service.NewSettings(kt, service.SName("HTTP/host.test.gokrb5"), service.DecodePAC(false)), client.NewSettings(client.DisablePAFXFAST(true)))
+			var id interface {
+				UserName() string
+				Domain() string
+			}
+			var err error
+			func() {
+				defer func() { recover() }()
+				i, _, e := a.Authenticate()
+				err = e
+				if i != nil {
+					id = i
+				}
+			}()
+			n++
+			x.errOut("KRB5BasicAuthenticator.Authenticate", err)
+			if id != nil {
+				x.out("identity returned by the Basic authenticator", []byte(id.UserName()+"|"+id.Domain()))
+			}
+			x.harvest()
+			x.dump()
+			report(c, "basic", scan(x.surfaces, x.secrets), map[string]interface{}{"password_shape": pi, "user_form": userForm})
+			c.Distinct(fmt.Sprintf("basic/%d/%s/%v", pi, userForm, err == nil))
+		}
+	}
+	c.Add("evaluations", n)
+}
+
 // serviceRejects: every defect of the C01 catalogue presented to the service with a logger; errors and log lines
 // must not contain the service keys, the ticket session key or anything else secret.
 func serviceRejects(c *engine.Ctx) {
@@ -538,6 +597,7 @@ func Run(c *engine.Ctx) {
 	tamperedReplies(c)
 	fileErrors(c)
 	serviceRejects(c)
+	basicAuthenticator(c)
 	marshalAfterDecrypt(c)
 	st := map[string]interface{}{}
 	for k, v := range OpStats {
